@@ -4,7 +4,7 @@ sys.path.insert(0, os.path.dirname(__file__))
 from _common import main, b2j, j2b
 import vbs_common as V
 
-BOUND = 'single-record files of every length 1..6000 (quick: 1..40, every length within +-6 of k*1012-4 and k*1012, step 37 otherwise; thorough: all), blocked and unblocked; multi-record lists sweeping block offsets; 0x00/0x40 runs; class API, write_many and list/bytes functions'
+BOUND = 'files of 30, 70 and 25 KiB; single-record files of every length 1..6000 (quick: 1..40, every length within +-6 of k*1012-4 and k*1012, step 37 otherwise; thorough: all), blocked and unblocked; multi-record lists sweeping block offsets; 0x00/0x40 runs; class API, write_many and list/bytes functions'
 
 
 def oracle(inp):
@@ -34,6 +34,11 @@ def cases(tier, rng):
                 yield {'kind': 'rt', 'recs': [[n, 0x40]], 'blocked': blocked, 'api': api}
                 yield {'kind': 'rt', 'recs': [[5, None], [n, 0x40], [n, 0x40], [2, None]], 'blocked': blocked, 'api': api}
         yield {'kind': 'rt', 'recs': [], 'blocked': blocked}
+        # files well above 16 / 64 KiB (usual buffer sizes): many small, several large, and mixed records
+        for api in ('class', 'many', 'list'):
+            yield {'kind': 'rt', 'recs': [[500, None]] * 60, 'blocked': blocked, 'api': api}
+            yield {'kind': 'rt', 'recs': [[6000, None]] * 12, 'blocked': blocked, 'api': api}
+            yield {'kind': 'rt', 'recs': [[20, None]] * 1000 + [[3000, 0x40], [7, None]], 'blocked': blocked, 'api': api}
     for _ in range(60 if tier == 'quick' else 1500):
         yield {'kind': 'rt', 'recs': [[rng.choice([1, 2, 4, 1008, 1012, 1016, 2020, 6000, rng.randint(1, 6000)]), rng.choice([None, 0, 0x40])] for _ in range(rng.randint(1, 9))],
                'blocked': rng.random() < 0.5, 'api': rng.choice(['class', 'many', 'list'])}
